@@ -88,7 +88,9 @@ func TestC16(t *testing.T) {
 	if only("emu") {
 		emu = planEmu(r)
 		for _, c := range emu.cases {
-			probes = append(probes, emu.hintInputs(c)...)
+			if !c.Wide {
+				probes = append(probes, emu.hintInputs(c)...)
+			}
 		}
 	}
 
@@ -177,7 +179,11 @@ func TestC16(t *testing.T) {
 			judges = append(judges, jd)
 			for _, c := range g1 {
 				c := c
-				tasks = append(tasks, task{fam: "nsw1/" + n.tag, data: c, cost: emuCost[c.Op] / 4, done: func(o outcome) { jd.judge(n.d, c, o) }})
+				t := task{fam: "nsw1/" + n.tag, data: c, cost: emuCost[c.Op] / 4, done: func(o outcome) { jd.judge(n.d, c, o) }}
+				if c.Wide {
+					t.watchdog = 90 * time.Second
+				}
+				tasks = append(tasks, t)
 			}
 			g2 := n.genG2(rng, quick)
 			if quick {
